@@ -257,14 +257,55 @@ class TableGuard:
         self.canon0 = module_table_canon()
         self.fast0 = None
         self.arr_ids = {id(v) for v in module_tables().values() if _has_array(v)}
+        self.layout = self._layout()
+        self.bound = dict(module_tables())
         self.fast0 = self._fast()
 
+    def _layout(self):
+        """(module, nvars, [(key, getter)]) for every module: lets _fast() fetch the known tables with
+        plain dict lookups instead of re-classifying ~3000 module attributes on every call."""
+        lay = []
+        keys = module_tables()
+        for m in _iodata_modules():
+            prefix = m.__name__ + "."
+            entries = []
+            for k in keys:
+                if not k.startswith(prefix):
+                    continue
+                rest = k[len(prefix):].split(".")
+                if rest[0] in vars(m):
+                    entries.append((k, rest))
+            lay.append((m, len(vars(m)), entries))
+        return lay
+
     def _fast(self):
-        """Cheap fingerprint: repr() of every distinct live table (C speed, injective enough for
-        dict/list/str/number tables); only when it moves the full canonical diff is computed."""
+        """Cheap fingerprint: repr()/bytes of every distinct live table; only when it moves is the full
+        canonical diff computed."""
         memo = {}
         parts = []
-        for k, v in module_tables().items():
+        lay = getattr(self, "layout", None)
+        items = None
+        if lay is not None:
+            items = []
+            for m, nvars, entries in lay:
+                d = vars(m)
+                if len(d) != nvars:
+                    items = None  # names appeared or disappeared: take the slow, complete path
+                    break
+                for k, rest in entries:
+                    try:
+                        v = d[rest[0]]
+                        for a in rest[1:]:
+                            v = getattr(v, a)
+                    except (KeyError, AttributeError):
+                        items = None
+                        break
+                    items.append((k, v))
+                if items is None:
+                    break
+        if items is None:
+            items = list(module_tables().items())
+        for k, v in items:
             i = id(v)
             if i not in memo:
                 memo[i] = _fasthash(v) if i in self.arr_ids else hash(repr(v))
@@ -290,6 +331,11 @@ class TableGuard:
             elif isinstance(live, set):
                 live.clear()
                 live.update(_snapcopy(saved))
+        # re-bind module-level names that were rebound to another object
+        for m, _n, entries in getattr(self, "layout", []):
+            for k, rest in entries:
+                if len(rest) == 1 and k in self.bound and vars(m).get(rest[0]) is not self.bound[k]:
+                    setattr(m, rest[0], self.bound[k])
         # remove module-level names that appeared since the snapshot
         for m in _iodata_modules():
             known = self.modnames.get(m.__name__)
